@@ -117,9 +117,13 @@ def one_history(ctx, drv):
             mtimes = {}
             for _ in range(rng.randint(1, 4)):
                 k = rng.choice(['modify-same-size', 'modify-other-size', 'add', 'delete', 'touch'])
-                when = rng.choice(['newer', 'newer', 'newer-by-hours', 'equal', 'older'])
-                mt = {'newer': prev_ts + rng.randint(1, 90), 'newer-by-hours': prev_ts + rng.choice([3600, 5 * 3600, 12 * 3600]) + 1,
-                      'equal': prev_ts, 'older': prev_ts - rng.randint(1, 100000)}[when]
+                when = rng.choice(['newer', 'newer', 'newer-by-hours', 'equal', 'older', 'newer-within-the-second', 'older-within-the-second'])
+                # mtimes in nanoseconds: the TIMESTAMP has one-second resolution, files do not
+                mt = {'newer': (prev_ts + rng.randint(1, 90)) * 10**9,
+                      'newer-by-hours': (prev_ts + rng.choice([3600, 5 * 3600, 12 * 3600]) + 1) * 10**9,
+                      'equal': prev_ts * 10**9, 'older': (prev_ts - rng.randint(1, 100000)) * 10**9,
+                      'newer-within-the-second': prev_ts * 10**9 + rng.choice([1000000, 250000000, 999000000]),
+                      'older-within-the-second': prev_ts * 10**9 - rng.choice([1000000, 250000000, 999000000])}[when]
                 if k in ('modify-same-size', 'modify-other-size', 'touch') and files:
                     p = rng.choice(sorted(files))
                     d = files[p]
@@ -131,7 +135,7 @@ def one_history(ctx, drv):
                     mtimes[p] = mt
                     for r in (a, b):
                         open(os.path.join(r, p), 'wb').write(d)
-                        os.utime(os.path.join(r, p), ns=(mt * 10**9, mt * 10**9))
+                        os.utime(os.path.join(r, p), ns=(mt, mt))
                 elif k == 'add':
                     p = rng.choice(['', 'sub/', 'new/']) + 'n%d' % rng.randint(0, 99)
                     d = bytes(rng.randrange(256) for _ in range(rng.randint(1, 20)))
@@ -140,7 +144,7 @@ def one_history(ctx, drv):
                     for r in (a, b):
                         os.makedirs(os.path.dirname(os.path.join(r, p)) or r, exist_ok=True)
                         open(os.path.join(r, p), 'wb').write(d)
-                        os.utime(os.path.join(r, p), ns=(mt * 10**9, mt * 10**9))
+                        os.utime(os.path.join(r, p), ns=(mt, mt))
                 elif k == 'delete' and len(files) > 1:
                     p = rng.choice(sorted(files))
                     del files[p]
@@ -149,7 +153,7 @@ def one_history(ctx, drv):
                 ops.append((k, when))
             # the property's premise: every file whose content changed keeping its size ends the round with an mtime newer than the
             # previous TIMESTAMP (size changes, additions and removals are detected regardless)
-            qualifies = all(mtimes.get(p, 0) > prev_ts for p in files
+            qualifies = all(mtimes.get(p, 0) > prev_ts * 10**9 for p in files
                             if p in files0 and files0[p] != files[p] and len(files0[p]) == len(files[p]))
             # model request for the incremental run
             world = trees.world_of(a, set(hashes.split()))
@@ -234,10 +238,10 @@ def run(ctx):
                 'gemato.cli is controlled and advances during the scan; a modification injected right after a file was hashed. Oracle: '
                 'Manifests equal modulo TIMESTAMP whenever every same-size modification ended newer than the previous TIMESTAMP; '
                 'TIMESTAMP <= scan start; the injected change is repaired by the next incremental run; model correspondence.')
-    ctx.assumptions = ['kernel timestamp granularity and float rounding of st_mtime are not modelled (mtimes are whole seconds)']
+    ctx.assumptions = ['kernel timestamp granularity is not modelled; mtimes are set explicitly, at whole seconds and at millisecond offsets inside the second of the TIMESTAMP (float rounding of st_mtime below a microsecond is not exercised)']
     drv = common.Driver()
     try:
-        for i in range(40 if ctx.tier == 'quick' else 1500):
+        for i in range(120 if ctx.tier == "quick" else 2500):
             one_history(ctx, drv)
     finally:
         drv.close()
